@@ -100,6 +100,10 @@ void* w_vm_new(int ops, long max_runtime_ms, int enable_classname_check)
     v->rt->register_sqfop(nular("hf4__", "", hole_f<4>)); v->rt->register_sqfop(nular("hf5__", "", hole_f<5>));
     v->rt->register_sqfop(nular("hb0__", "", hole_b<0>)); v->rt->register_sqfop(nular("hb1__", "", hole_b<1>));
     v->rt->register_sqfop(nular("hb2__", "", hole_b<2>)); v->rt->register_sqfop(nular("hb3__", "", hole_b<3>));
+    // deeper nestings of the program grammars need more holes
+    v->rt->register_sqfop(nular("hf6__", "", hole_f<6>)); v->rt->register_sqfop(nular("hf7__", "", hole_f<7>)); v->rt->register_sqfop(nular("hf8__", "", hole_f<8>));
+    v->rt->register_sqfop(nular("hf9__", "", hole_f<9>)); v->rt->register_sqfop(nular("hf10__", "", hole_f<10>)); v->rt->register_sqfop(nular("hf11__", "", hole_f<11>));
+    v->rt->register_sqfop(nular("hb4__", "", hole_b<4>)); v->rt->register_sqfop(nular("hb5__", "", hole_b<5>)); v->rt->register_sqfop(nular("hb6__", "", hole_b<6>)); v->rt->register_sqfop(nular("hb7__", "", hole_b<7>));
     v->rt->register_sqfop(unary("trace__", t_any(), "", trace_any));
     v->rt->register_sqfop(unary("event__", t_scalar(), "", event_scalar));
     return v;
